@@ -1237,6 +1237,9 @@ func (d *Data) SetResolution(uuid dvid.UUID, jsonBytes []byte) error {
 	if err := json.Unmarshal(jsonBytes, &config); err != nil {
 		return err
 	}
+	if len(config) != 3 {
+		return fmt.Errorf("resolution must be a JSON array of 3 numbers, got %d", len(config))
+	}
 	d.Properties.VoxelSize = config
 	if err := datastore.SaveDataByUUID(uuid, d); err != nil {
 		return err
